@@ -101,7 +101,7 @@ func isOption(s string, mode Mode, windows bool) ([]optionPair, bool) {
 			return opts, true
 		case SingleDash:
 			opts := []optionPair{{Option: string([]rune(match[2])[0])}}
-			if len(match[2]) > 1 || len(match[3]) > 0 {
+			if len([]rune(match[2])) > 1 || len(match[3]) > 0 {
 				args := string([]rune(match[2])[1:]) + match[3]
 				opts[0].Args = []string{args}
 			}
